@@ -58,7 +58,10 @@ def make_interp(ctx):
     ai.summaries['collections.deque'] = s_deque
     ai.summaries['threading.RLock'] = lambda i, a, k, n: AMock('RLock')
     ai.summaries['threading.Lock'] = lambda i, a, k, n: AMock('Lock')
-    ai.summaries['random.shuffle'] = lambda i, a, k, n: None
+    def s_shuffle(interp, args, kwargs, node):
+        log_event('shuffle', args[0] if args else None, node)      # order is not modelled; that the object is permuted in place is
+        return None
+    ai.summaries['random.shuffle'] = s_shuffle
 
     def s_sleep(interp, args, kwargs, node):
         log_event('sleep')
